@@ -84,6 +84,7 @@ class FuncVal:
     env: Any = None  # enclosing Frame for closures
     lambda_node: Any = None
     module: Any = None
+    raw: bool = False  # the undecorated function object (decorators are applied by Interp.bound_value)
 
     def __repr__(self) -> str:
         return f"<fn {getattr(self.fn, 'qualname', 'lambda')}>"
